@@ -99,6 +99,12 @@ impl<S: AsyncRead + Unpin> DltStreamReader<S> {
         }
 
         let (_, message_len) = parse_length(&self.buffer[storage_len..header_len])?;
+        if message_len < HEADER_MIN_LENGTH {
+            return Err(DltParseError::ParsingHickup(format!(
+                "message length {} is less than the header length",
+                message_len
+            )));
+        }
         let total_len = storage_len + message_len as usize;
         debug_assert!(total_len <= self.buffer.len());
 
